@@ -18,7 +18,7 @@ META = {
         "quick": "histories of <=4 composition calls (add_subcircuit x2 incl. the same child twice, add_blackbox, fill_blackbox in both orders, strip_blackboxes with and without ignored pins) over 2 parents x children {half_adder, full_adder, mux(2), adder(2), constants child, child with a flop blackbox, 6 random DAGs} x 3 seeded connection maps; every step validated; ALL valuations of all nodes",
         "thorough": "40 random children, 6 connection maps, 8 hash seeds",
     },
-    "outside": ["child outputs connected to anything but an undriven buffer of the parent", "connection maps together with strip_io=False", "circuits outside the families"],
+    "outside": ["child outputs connected to anything but an undriven buffer of the parent", "connections on child inputs together with strip_io=False (the inputs stay inputs and cannot be driven)", "circuits outside the families"],
     "assumptions": ["sem.py relational semantics (bb_input = buffer, bb_output/undriven = free)", "harness-side reference composition on specs (ref_* functions, ~40 lines)", "z3 sound"],
 }
 
@@ -46,6 +46,11 @@ def children(ctx):
     ff = ["ff", ["clk", "d"], ["q"]]
     out.append(("with_flop", mkspec("with_flop", I("ck", "x") + [("r0.clk", "bb_input", ["ck"]), ("r0.d", "bb_input", ["x"]), ("r0.q", "bb_output", []), ("qb", "buf", []), ("y", "xor", ["qb", "x"], True)],
                                     edges=[("r0.q", "qb")], bbs={"r0": ff})))
+    lat = ["latch", ["en", "d"], ["q", "qn"]]
+    out.append(("two_boxes", mkspec("two_boxes", I("ck", "x") + [("r0.clk", "bb_input", ["ck"]), ("r0.d", "bb_input", ["x"]), ("r0.q", "bb_output", []), ("qb", "buf", []),
+                                                              ("l1.en", "bb_input", ["ck"]), ("l1.d", "bb_input", ["qb"]), ("l1.q", "bb_output", []), ("l1.qn", "bb_output", []), ("lq", "buf", []),
+                                                              ("y", "and", ["qb", "lq", "x"], True)],
+                                    edges=[("r0.q", "qb"), ("l1.q", "lq")], bbs={"r0": ff, "l1": lat})))
     # feed-through port: an input that is also marked as an output of the child
     out.append(("feedthrough", mkspec("feedthrough", [("en", "input", [], True), ("d", "input", []), ("q", "and", ["en", "d"], True), ("r", "not", ["en"], True)])))
     for cid, s in F.f_rand(ctx.seed + 77, 6 if ctx.quick else 40, consts=None):
@@ -91,7 +96,9 @@ def ref_add_sub(P, S, name, conn, strip_io=True):
     if strip_io:
         nodes = [list(n) for n in P["nodes"]] + [[f"{name}_{n}", "buf" if t == "input" else t, False] for n, t, _ in S["nodes"]]
     else:
+        # child inputs stay inputs: they cannot be driven, so only outputs may be connected in this mode
         nodes = [list(n) for n in P["nodes"]] + [[f"{name}_{n}", t, o] for n, t, o in S["nodes"]]
+        conn = {k: v for k, v in conn.items() if k not in sn.inputs()}
     edges = [list(e) for e in P["edges"]] + [[f"{name}_{u}", f"{name}_{v}"] for u, v in S["edges"]]
     for k, net in conn.items():
         if k in sn.inputs():
@@ -291,8 +298,9 @@ def run(ctx):
                 continue
         # strip_io=False: the child keeps its inputs/outputs; sub-blackboxes are still carried over under prefixed names
         if not (Net.from_spec(c1).inputs() & Net.from_spec(c1).outputs()):
-            hist.append(["add_subcircuit", c1["name"], "u9", {}, "strip_io=False"])
-            if not step("add_subcircuit-keep-io", lambda: c.add_subcircuit(build(c1), "u9", None, strip_io=False), ref_add_sub(cur, c1, "u9", {}, strip_io=False), "add_subcircuit"):
+            conn9 = {k_: v_ for k_, v_ in conn_map(rng, cur, c1, taken).items() if k_ not in Net.from_spec(c1).inputs()}
+            hist.append(["add_subcircuit", c1["name"], "u9", conn9, "strip_io=False"])
+            if not step("add_subcircuit-keep-io", lambda: c.add_subcircuit(build(c1), "u9", dict(conn9) or None, strip_io=False), ref_add_sub(cur, c1, "u9", conn9, strip_io=False), "add_subcircuit"):
                 continue
         # fully connected composition results are lint-clean except for sockets we left open: check with undriven=False
         ctx.lint_clean(c, "composition", undriven=False)
